@@ -22,7 +22,7 @@ from ..core import Ctx
 REPO = "/repo"
 ROOT = os.path.dirname(os.path.dirname(os.path.dirname(os.path.abspath(__file__))))
 
-MONITOR_OF = {"C02": "assembly", "C03": "assembly", "C04": "bc", "C05": "timestep", "C08": "location", "C11": "law", "C12": "fearray", "C14": "perturb,stale", "C15": "history",
+MONITOR_OF = {"C02": "assembly", "C03": "assembly", "C04": "bc", "C05": "timestep", "C08": "location", "C09": "loads", "C16": "results", "C11": "law", "C12": "fearray", "C14": "perturb,stale", "C15": "history",
               "C17": "phasefield", "C19": "integrate"}
 
 # workloads: ("tests", [paths relative to /repo]) or ("examples", [glob patterns relative to /repo/examples], cap seconds per script)
@@ -38,6 +38,7 @@ WORKLOADS = {
     "examples-inelastic": ("examples", ["Inelasticity/*.py"], 120),
     "examples-phasefield-short": ("examples", ["PhaseField/LShape.py", "PhaseField/CT.py"], 120),
     "examples-phasefield": ("examples", ["PhaseField/*.py"], 240),
+    "examples-loads": ("examples", ["LinearizedElasticity/MeshOptim1.py", "LinearizedElasticity/Elas7.py"], 90),
     "examples-dynamic": ("examples", ["Beam/Beam[67].py", "LinearizedElasticity/Elas9.py", "Thermal/Thermal[23].py", "Hyperelasticity/Hyperelas4.py"], 90),
     "examples-dynamic-long": ("examples", ["LinearizedElasticity/Elas10.py", "WeakForms/LinearElasticity2.py"], 150),
     "examples-histories": ("examples", ["Contact/Contact[23].py", "Inelasticity/RelaxationPlate.py", "LinearizedElasticity/Elas7.py", "PhaseField/LShape.py", "Beam/Beam6.py",
@@ -53,6 +54,8 @@ PLAN = {
     "C15": {"quick": ["examples-histories"], "thorough": ["tests-simulations", "examples-histories", "examples-nonlinear", "examples-inelastic", "examples-elastic"]},
     "C17": {"quick": ["examples-phasefield-short"], "thorough": ["tests-simulations", "tests-models", "examples-phasefield"]},
     "C08": {"quick": [], "thorough": ["tests-fem"]},   # no example script asks for reference coordinates
+    "C09": {"quick": ["examples-loads"], "thorough": ["tests-simulations", "examples-elastic", "examples-nonlinear"]},
+    "C16": {"quick": ["examples-short"], "thorough": ["tests-simulations", "examples-elastic", "examples-inelastic", "examples-nonlinear"]},
     "C11": {"quick": ["examples-short"], "thorough": ["tests-models", "tests-simulations", "examples-elastic", "examples-nonlinear"]},
     "C12": {"quick": ["examples-short"], "thorough": ["tests-fem", "tests-models", "tests-simulations", "examples-weakforms", "examples-nonlinear"]},
     "C14": {"quick": ["examples-short"], "thorough": ["tests-simulations", "examples-elastic", "examples-weakforms", "examples-nonlinear", "examples-inelastic"]},
